@@ -1,5 +1,6 @@
 import Drv.Json
 import Spec.Offline
+import Model.Offline.Wf
 namespace Drv.Offline
 open Lean Model.Offline
 
@@ -23,8 +24,116 @@ def dumpOfJson (j : Json) : Spec.Offline.Dump :=
   { schema := (getArr j "schema").map strListOf, tables := (getArr j "tables").map tableOfJson,
     version := getStrList j "version" }
 
+def valOfJson (j : Json) : Option Val :=
+  match getStr j "k" with
+  | some "null" => some .null
+  | some "int" => (getStrD j "v").toInt?.map .int
+  | some "str" => some (.str (getCps j "v"))
+  | _ => none
+
+def valJ : Val → Json
+  | .null => obj [("k", "null")]
+  | .int i => obj [("k", "int"), ("v", Json.str (toString i))]
+  | .str s => obj [("k", "str"), ("v", cpsJ s)]
+
+def colOfJson (j : Json) : Option Col :=
+  let ty : Option ColTy := match getStr j "ty" with
+    | some "integer" => some .integer
+    | some "text" => some .text
+    | some "varchar" => (getNat j "n").map .varchar
+    | _ => none
+  ty.map (fun t => ⟨getCps j "name", t, getBoolD j "nullable" true⟩)
+
+def colJ (c : Col) : Json :=
+  obj [("name", cpsJ c.name), ("nullable", Json.bool c.nullable),
+       ("ty", match c.ty with | .integer => "integer" | .text => "text" | .varchar _ => "varchar")]
+
+def namesOf (j : Json) (k : String) : List Str := (getArr j k).map cpsOf
+
+def opOfJson (j : Json) : Option Op :=
+  match getStr j "op" with
+  | some "create_table" => ((getArr j "cols").mapM colOfJson).map (Op.createTable (getCps j "name"))
+  | some "drop_table" => some (.dropTable (getCps j "name"))
+  | some "add_column" => (colOfJson (getObj j "col")).map (Op.addColumn (getCps j "table"))
+  | some "create_index" => some (.createIndex (getCps j "name") (getCps j "table") (namesOf j "cols"))
+  | some "drop_index" => some (.dropIndex (getCps j "name"))
+  | some "bulk_insert" =>
+    ((getArr j "rows").mapM (fun (r : Json) => match r with
+      | Json.arr a => a.toList.mapM valOfJson
+      | _ => none)).map (Op.bulkInsert (getCps j "table") (namesOf j "cols"))
+  | some "execute" => some (.execute (getCps j "text"))
+  | _ => none
+
+def verOfJson (j : Json) : Option VerOp :=
+  match j with
+  | .arr a => match a.toList with
+    | [.str "insert", v] => some (.insert (cpsOf v))
+    | [.str "delete", v] => some (.delete (cpsOf v))
+    | [.str "update", o, n] => some (.update (cpsOf o) (cpsOf n))
+    | _ => none
+  | _ => none
+
+def stepOfJson (j : Json) : Option Step := do
+  let body ← (getArr j "body").mapM opOfJson
+  let ver ← (getArr j "ver").mapM verOfJson
+  pure ⟨getCps j "comment", body, ver⟩
+
+def tableJ (t : Table) : Json :=
+  obj [("name", cpsJ t.name), ("cols", Json.arr (t.cols.map colJ).toArray),
+       ("rows", Json.arr (t.rows.map (fun r => Json.arr (r.map valJ).toArray)).toArray)]
+
+def dbJ : Option DB → Json
+  | none => Json.null
+  | some db => obj [("tables", Json.arr (db.tables.map tableJ).toArray),
+      ("indexes", Json.arr (db.indexes.map (fun i => obj [("name", cpsJ i.name), ("table", cpsJ i.table),
+        ("cols", Json.arr (i.cols.map cpsJ).toArray)])).toArray),
+      ("version", match db.version with | none => Json.null | some r => Json.arr (r.map cpsJ).toArray),
+      ("log", Json.arr (db.log.map cpsJ).toArray)]
+
+def q := sqliteNeedsQuote
+
+/-- db₀ := the online runs of the setup step lists, from the empty database -/
+def setupDb : List (List Step) → DB → Option DB
+  | [], db => some db
+  | s :: r, db => match online q s db with
+    | some db' => setupDb r db'
+    | none => none
+
 def handle (op : String) (j : Json) : Option Json :=
   match op with
+  | "off.lit" =>
+    match valOfJson (getObj j "v") with
+    | some v =>
+      let t := renderLit v
+      some (obj [("text", cpsJ t), ("back", match parseLiteral t with | some v' => valJ v' | none => Json.null),
+                 ("roundtrip", Json.bool (parseLiteral t == some v))])
+    | none => some (errJ "bad-op")
+  | "off.quote" =>
+    some (obj [("text", cpsJ (renderTok (nameTok q (getCps j "name"))))])
+  | "off.emit" =>
+    match (getArr j "steps").mapM stepOfJson with
+    | some steps =>
+      match offline q (namesOf j "start") steps with
+      | some t => some (obj [("script", cpsJ t)])
+      | none => some (obj [("script", Json.null)])
+    | none => some (errJ "bad-op")
+  | "off.run" =>
+    match (getArr j "steps").mapM stepOfJson, (getArr j "setup").mapM (fun (s : Json) => match s with
+        | Json.arr a => a.toList.mapM stepOfJson
+        | _ => none) with
+    | some steps, some setup =>
+      match setupDb setup DB.empty with
+      | none => some (obj [("setup", Json.null)])
+      | some db0 =>
+        let a := online q steps db0
+        let b := (offline q (namesOf j "start") steps).bind (fun t => execScript q t db0)
+        let start := namesOf j "start"
+        -- the decidable hypotheses of C12.same_effect_partial, evaluated on this input
+        let wf := steps.all (stepOk q) && midOk start steps && (!start.isEmpty || !steps.isEmpty)
+          && (db0.version == (if start.isEmpty then none else some start))
+        some (obj [("setup", Json.bool true), ("wf", Json.bool wf), ("online", dbJ a), ("offline", dbJ b),
+                   ("same", Json.bool (Spec.Offline.sameOutcomeB a b))])
+    | _, _ => some (errJ "bad-op")
   | "off.split" =>
     some (obj [("stmts", Json.arr ((split (getCps j "text")).map cpsJ).toArray)])
   | "off.same" =>
